@@ -772,7 +772,9 @@ def _account(ctx, res, refs):
     for k, v in facts.items():
         ctx.count(k, v)
     sample = None
-    if nontriv and len(ctx.samples) < ctx.max_samples:
+    if (nontriv and len(ctx.samples) < ctx.max_samples
+            and name not in ctx._c29_sampled):
+        ctx._c29_sampled.add(name)        # one written-out case per config
         sample = {"config": name, "scheme": cfg["scheme"],
                   "variants": cfg["variants"],
                   "schedule": res["schedule"],
@@ -919,6 +921,7 @@ def main(ctx):
         "Distinct = (configuration, sequence of (run, point)); non-trivial "
         "= some run is released while another has started and not finished")
     ctx._c29_seqs = set()
+    ctx._c29_sampled = set()
     if not os.path.isfile(os.path.join(SITE, "sitecustomize.py")):
         ctx.inconclusive("interposition module missing")
         return
@@ -986,6 +989,11 @@ def main(ctx):
 def replay(ctx, witness):
     ctx.rule = "replay of one recorded schedule"
     ctx._c29_seqs = set()
+    ctx._c29_sampled = set()
+    if witness.get("selftest") and not os.environ.get("VF_C29_SELFTEST"):
+        print("note: witness was recorded with VF_C29_SELFTEST=%s (a "
+              "deliberately broken proxy); without it the schedule is "
+              "expected to pass" % witness["selftest"])
     cfg = witness["config"]
     pool = ThreadPoolExecutor(max_workers=8)
     try:
